@@ -57,7 +57,7 @@ def gen_cases(ctx):
         xs = stream(ctx, n, ctx.rng.random() < 0.4)
         p = {"delta": ctx.rng.choice([0.0, 0.005, 0.01, 0.5]), "threshold": ctx.rng.choice([0.5, 1, 2, 5, 20]),
              "burn_in": ctx.rng.choice([0, 1, 2, 3, 5, 9, 30]), "direction": ctx.rng.choice(["positive", "negative"])}
-        cases.append({"det": "ph", "params": p, "xs": xs})
+        cases.append({"det": "ph", "params": p, "xs": xs, "reuse_buffer": ctx.rng.random() < 0.3})
     for _ in range(ctx.scale(220, 4000)):
         n = ctx.rng.randint(20, 260)
         xs = stream(ctx, n, ctx.rng.random() < 0.4)
@@ -70,7 +70,7 @@ def gen_cases(ctx):
         p = {"target": ctx.rng.choice([0.0, 1.5, xs[0]]) if given else None, "sd_hat": ctx.rng.choice([1.0, 0.5, 2.0]) if given else None,
              "burn_in": b, "delta": ctx.rng.choice([0.0, 0.005, 0.25]), "threshold": ctx.rng.choice([0.5, 1, 2, 5, 8]),
              "direction": ctx.rng.choice([None, "positive", "negative"])}
-        cases.append({"det": "cusum", "params": p, "xs": xs})
+        cases.append({"det": "cusum", "params": p, "xs": xs, "reuse_buffer": ctx.rng.random() < 0.3})
     # boundary: threshold equal to an attained statistic value
     for _ in range(ctx.scale(60, 600)):
         det = ctx.rng.choice(["ph", "cusum"])
@@ -93,9 +93,16 @@ def gen_cases(ctx):
 def run_impl(case):
     d = make(case)
     rows = []
+    buf = np.empty(1) if case.get("reuse_buffer") else None
     for x in case["xs"]:
         try:
-            d.update(x)
+            if buf is None:
+                d.update(x)
+            else:
+                # the caller re-uses one array object and overwrites it after the call
+                buf[0] = x
+                d.update(buf)
+                buf[0] = 12345.678
         except ValueError as e:
             rows.append({"error": "ValueError", "msg": str(e)[:80]})
             break
